@@ -47,9 +47,9 @@ theorem CountInv.setEv {s : St} (h : CountInv s) (e : Nat) (r : Ev) (hr : r.pass
     · cases hh
   · simp only [hkj, if_false] at hh; exact h.ev j ej hh
 
-theorem count_visitKey (trigRec : St → Nat → Nat → St × List Call)
-    (hrec : ∀ s e a, CountInv s → CountInv (trigRec s e a).1) (e a : Nat) (acc : St × List Call) (k : Nat)
-    (h : CountInv acc.1) : CountInv (visitKey trigRec e a acc k).1 := by
+theorem count_visitKey (trigRec : St → Nat → Nat → Bool → St × List Call)
+    (hrec : ∀ s e a b, CountInv s → CountInv (trigRec s e a b).1) (e a : Nat) (async : Bool)
+    (acc : St × List Call) (k : Nat) (h : CountInv acc.1) : CountInv (visitKey trigRec e a async acc k).1 := by
   unfold visitKey
   cases hk : acc.1.hooks[k]? with
   | none => exact h
@@ -66,23 +66,23 @@ theorem count_visitKey (trigRec : St → Nat → Nat → St × List Call)
         have f1 : CountInv (setHook acc.1 k { r with count := r.count + 1, fired := r.fired + 1 }) :=
           h.setHook k _ (by simp only; rw [minLim_not_exceeds h2, hr])
         split
-        · exact hrec _ _ a f1
+        · exact hrec _ _ a _ f1
         · exact f1
 
-theorem count_fold (trigRec : St → Nat → Nat → St × List Call)
-    (hrec : ∀ s e a, CountInv s → CountInv (trigRec s e a).1) (e a : Nat) (ks : List Nat) (acc : St × List Call)
-    (h : CountInv acc.1) : CountInv (ks.foldl (visitKey trigRec e a) acc).1 := by
+theorem count_fold (trigRec : St → Nat → Nat → Bool → St × List Call)
+    (hrec : ∀ s e a b, CountInv s → CountInv (trigRec s e a b).1) (e a : Nat) (async : Bool) (ks : List Nat)
+    (acc : St × List Call) (h : CountInv acc.1) : CountInv (ks.foldl (visitKey trigRec e a async) acc).1 := by
   induction ks generalizing acc with
   | nil => exact h
   | cons k ks ih =>
     simp only [List.foldl_cons]
-    exact ih _ (count_visitKey trigRec hrec e a acc k h)
+    exact ih _ (count_visitKey trigRec hrec e a async acc k h)
 
-theorem count_trig (fuel : Nat) : ∀ s e a, CountInv s → CountInv (trig fuel s e a).1 := by
+theorem count_trig (fuel : Nat) : ∀ s e a b, CountInv s → CountInv (trig fuel s e a b).1 := by
   induction fuel with
-  | zero => intro s e a h; exact h
+  | zero => intro s e a b h; exact h
   | succ fuel ih =>
-    intro s e a h
+    intro s e a b h
     simp only [trig]
     cases hev : s.evs[e]? with
     | none => exact h
@@ -93,7 +93,7 @@ theorem count_trig (fuel : Nat) : ∀ s e a, CountInv s → CountInv (trig fuel 
       · simp only [hx, if_true]
         exact h.setEv e _ (by simp only; rw [minLim_exceeds hx]; exact hr)
       · simp only [hx, Bool.false_eq_true, if_false]
-        exact count_fold (trig fuel) ih e a _ (_, []) (h.setEv e _ (by simp only; rw [minLim_not_exceeds hx, hr]))
+        exact count_fold (trig fuel) ih e a b _ (_, []) (h.setEv e _ (by simp only; rw [minLim_not_exceeds hx, hr]))
 
 theorem detach_count {s : St} (h : CountInv s) (k : Nat) : CountInv (detach s k) := by
   unfold detach
@@ -118,7 +118,7 @@ theorem setEvLink_count {s : St} (h : CountInv s) (src : Nat) (ev : Ev) (he : s.
 
 theorem count_step {s : St} (h : CountInv s) (op : Op) : CountInv (step s op).1 := by
   cases op with
-  | new m p =>
+  | new m p q =>
     simp only [step]
     refine ⟨h.hook, ?_⟩
     intro e ev he
@@ -140,7 +140,7 @@ theorem count_step {s : St} (h : CountInv s) (op : Op) : CountInv (step s op).1 
   | trigger e a =>
     simp only [step]
     split
-    · exact count_trig _ s e a h
+    · exact count_trig _ s e a false h
     · exact h
   | link src tgt =>
     cases he : s.evs[src]? with
